@@ -227,6 +227,23 @@ def run(ctx):
 # the descriptor API of the Attribute hierarchy; its other public-looking methods (validate, update_reverse, db_set, ...)
 # are the internal protocol between descriptors and are reached only through these or through Entity/SetInstance operations
 # early returns of changing operations that do nothing at all (test text -> reason)
+    # ---- once the connection has been taken from the cache, the objects are detached (strict: their values dropped) on EVERY way out of close(),
+    # also when the final ROLLBACK or the release of the connection raises
+    g = cg.cfg(cl)
+    taken = [n for n in g.nodes if n.kind == 'stmt' and isinstance(n.ast, ast.Assign) and any(dotted(t) == '%s.connection' % cl.recv for t in n.ast.targets)
+             and isinstance(n.ast.value, ast.Constant) and n.ast.value.value is None]
+    detach = [n for n in g.nodes if n.kind == 'test' and norm(n.ast).replace(' ', '') == 'db_sessionanddb_session.strict']
+    ok = bool(taken) and bool(detach) and all(g.must_pass_after(t, detach, exits=[g.exit, g.raise_]) for t in taken)
+    pth = None
+    if taken and detach and not ok:
+        for ex in (g.raise_, g.exit):
+            pth = pth or g.path(taken[0], ex, avoid=detach)
+    ctx.ob('C32-CLOSE.objects-detached-on-every-exit-of-close', cl, detach[0].stmt if detach else cl.node, ok,
+           '' if ok else 'SessionCache.close can be left (%s) without detaching the session\'s objects: when the final ROLLBACK fails, objects of a strict session keep their '
+           'values and stay readable after the session is over' % (g.fmt_path(pth) if pth else 'no detach block'), node=detach[0].stmt if detach else None,
+           expected='the detaching block in a `finally:` that also covers provider.rollback()')
+
+
 NOOP_RETURNS = {
     'Set.__set__': {'isinstance(new_items, SetInstance) and new_items._obj_ is obj and new_items._attr_ is attr':
                     'the write-back half of `obj.coll += x`: the change itself was made (or refused) by SetInstance.__iadd__/add'},
@@ -236,6 +253,8 @@ ATTR_API = {'__get__', '__set__', '__delete__', 'load', 'copy'}
 MUTATING = {'set', 'delete', 'add', 'remove', 'clear', 'create', '__iadd__', '__isub__', 'flush', 'load', 'update'}
 
 MUTANTS = [
+    dict(id='C32-c9', file='pony/orm/core.py', fn='SessionCache.close', old="        try:\n            if rollback:\n                try: provider.rollback(connection, cache)\n                except:\n                    provider.drop(connection, cache)\n                    raise\n            provider.release(connection, cache)\n",
+         new="        if rollback:\n            try: provider.rollback(connection, cache)\n            except:\n                provider.drop(connection, cache)\n                raise\n        try: provider.release(connection, cache)\n", expect='C32-CLOSE.objects-detached'),
     dict(id='C32-r1', file='pony/orm/core.py', fn='Entity._attr_changed_', old="        cache = obj._session_cache_\n        if cache is None or not cache.is_alive: throw_db_session_is_over('assign new value to', obj, attr)\n", new="        if obj._wbits_ is None or obj._wbits_ & obj._bits_[attr]: return\n        cache = obj._session_cache_\n        if cache is None or not cache.is_alive: throw_db_session_is_over('assign new value to', obj, attr)\n", expect='C32-LIVE.change-is-never'),
     dict(id='C32-m8', file='pony/orm/core.py', fn='SessionCache.close',
          old='        cache.is_alive = False\n        provider = database.provider\n        connection = cache.connection\n        if connection is None: return\n        cache.connection = None\n',
